@@ -543,12 +543,12 @@ func cnRun(cs cnCase) *cnResult {
 	send := func(m map[string]interface{}) {
 		select {
 		case sock.in <- m:
-		case <-time.After(3 * time.Second):
+		case <-patient(3 * time.Second):
 			res.Problem = "the connection stopped reading"
 		}
 	}
 	quiet := func() bool {
-		deadline := time.Now().Add(6 * time.Second)
+		deadline := newPatience(6 * time.Second)
 		for {
 			rec.mu.Lock()
 			before := rec.seq
@@ -560,7 +560,7 @@ func cnRun(cs cnCase) *cnResult {
 			if same {
 				return true
 			}
-			if time.Now().After(deadline) {
+			if deadline.expired() {
 				return false
 			}
 		}
@@ -616,12 +616,12 @@ func cnRun(cs cnCase) *cnResult {
 		sock.Close()
 		select {
 		case <-served:
-		case <-time.After(3 * time.Second):
+		case <-patient(3 * time.Second):
 			res.Problem = "ServeJSONSocket did not return after the socket closed"
 		}
 		rec.add("closed", "", nil, "")
 		db.change(func() { db.failMode = 0 })
-		deadline := time.Now().Add(6 * time.Second)
+		deadline := newPatience(6 * time.Second)
 		for {
 			rec.mu.Lock()
 			before := rec.seq
@@ -633,7 +633,7 @@ func cnRun(cs cnCase) *cnResult {
 			if same {
 				break
 			}
-			if time.Now().After(deadline) {
+			if deadline.expired() {
 				res.Problem = "no quiescence after close"
 				break
 			}
@@ -681,7 +681,7 @@ func cnRun(cs cnCase) *cnResult {
 	sock.Close()
 	select {
 	case <-served:
-	case <-time.After(3 * time.Second):
+	case <-patient(3 * time.Second):
 		res.Problem = "ServeJSONSocket did not return after the socket closed"
 	}
 	rec.add("closed", "", nil, "")
